@@ -214,6 +214,31 @@ Theorem C01_stale_cache_differs :
 Proof. exact stale_cache_refuted. Qed.
 Print Assumptions C01_stale_cache_differs.
 
+(* ---- The configuration "fetched for the run that built it".  Every Run
+   downloads the newest version of the configuration module; a Run against a
+   store whose newest version is (v, u) is the specified run under u ... *)
+Theorem C01_run_fetching_spec : forall st v u p d,
+  NoDup (map d_name d) -> run_fetching (st ++ [(v, u)]) p d = run_spec (with_config p v u) d.
+Proof. exact run_fetching_spec. Qed.
+Print Assumptions C01_run_fetching_spec.
+
+(* ... its upload report carries that version and is filtered by THAT
+   configuration, whatever versions earlier Runs of the process fetched ... *)
+Theorem C01_run_fetching_filters_by_latest : forall st v u p d local up deleted,
+  NoDup (map d_name d) ->
+  run_fetching (st ++ [(v, u)]) p d = (Some (local, Some up), deleted) ->
+  r_config up = v /\
+  r_programs up = filter_upload (new_config u) (rp_x p) (aggregate (map d_file (expired_now (rp_start p) d))).
+Proof. exact run_fetching_filters_by_latest. Qed.
+Print Assumptions C01_run_fetching_filters_by_latest.
+
+(* ... and in a process every Run is judged against the store and directory it finds. *)
+Theorem C01_run_fetching_history_pointwise : forall h before s after,
+  h = before ++ s :: after ->
+  nth (List.length before) (run_fetching_history h) (None, []) = run_fetching (fst (fst s)) (snd (fst s)) (snd s).
+Proof. exact run_fetching_history_pointwise. Qed.
+Print Assumptions C01_run_fetching_history_pointwise.
+
 (* ---- Programs of one weekly report are filtered independently of each
    other and of their order. *)
 Theorem C01_upload_program_independent : forall c x before p after,
